@@ -226,6 +226,21 @@ def rule_product_by_order(rep: Report, repo: Repo):
                       "load dominated by the presence test of both index tuples", loc(ld))
     # zero-skip: each load is compared with `zero` and skipped; the later load is dominated by the earlier one's test
     _zero_skip(rep, repo, f, g, loads, loop)
+    # -- fail closed on the function skeleton: the only way out is `return result` after the loop, and
+    #    `result` is only written by `result = zero` and by the accumulation inside the loop
+    rets = [n for n in own_nodes(f) if isinstance(n, ast.Return)]
+    after = f.body[f.body.index(loop) + 1:]
+    ok = len(rets) == 1 and rets[0] in after and norm(rets[0].value) == "result" and \
+        not any(isinstance(n, (ast.Break, ast.Return)) for s in loop.body if not isinstance(s, ast.FunctionDef) for n in [s, *own_nodes(s)])
+    if not ok:
+        raise AnalysisError(R, "product_by_order has an exit other than `return result` after the complete loop "
+                               f"({[norm(r)[:40] for r in rets]}); the splitting enumeration cannot be certified")
+    writes = [n for n in own_nodes(f) if isinstance(n, (ast.Assign, ast.AugAssign))
+              and any(isinstance(x, ast.Name) and x.id == "result" and isinstance(x.ctx, ast.Store) for t in
+                      (n.targets if isinstance(n, ast.Assign) else [n.target]) for x in ast.walk(t))]
+    init = [w for w in writes if w in f.body]
+    rep.check(len(init) == 1 and norm(init[0]) == "result = zero" and f.body.index(init[0]) < f.body.index(loop), R,
+              "series::product_by_order the sum starts from the `zero` sentinel", norm(init[0]) if init else "", loc(f))
     # -- E2.3 multiplicity table -------------------------------------------------------------
     _multiplicity(rep, repo, f, loop, start, end, o1, o2)
     # -- operator application order --------------------------------------------------------------
